@@ -193,6 +193,16 @@ class Bridge:
             pass
 
 
+def spell_unset_flags(rng, r):
+    """one request in four writes the flags it does not set as `false` or `null` instead of
+    leaving them out: the same request"""
+    if rng.chance(1, 4):
+        v = False if rng.chance(2, 3) else None
+        for k in ("more", "oneway", "upgrade"):
+            if k not in r:
+                r[k] = v
+
+
 def gen_sequence(rng, ifaces, n, allow_getinfo):
     seq = []
     for i in range(n):
@@ -211,6 +221,7 @@ def gen_sequence(rng, ifaces, n, allow_getinfo):
             r = {"method": "org.varlink.service.GetInterfaceDescription", "parameters": {"interface": name}}
         else:
             r = {"method": name + ".Nope", "parameters": {"tok": tok}}
+        spell_unset_flags(rng, r)
         seq.append((name, r))
     if allow_getinfo and rng.chance(1, 2):
         seq.insert(rng.below(len(seq) + 1), ("__resolver__", {"method": "org.varlink.service.GetInfo"}))
@@ -233,6 +244,7 @@ def std_sequence(rng, n):
             r = {"method": "org.verif.t.Echo", "parameters": {"token": tok}, "oneway": True}
         else:
             r = {"method": "org.varlink.service.GetInfo"}
+        spell_unset_flags(rng, r)
         seq.append(("std", r))
     return seq
 
@@ -636,7 +648,12 @@ def close_early_case(ctx, mode, cmd, seq, table, svcs, rng):
     desc = {"engine": "c18", "mode": mode, "behaviour": "close-right-after-last-request", "requests": sent, "cmd": cmd[1:]}
     ctx.case((mode, "close-early", json.dumps(sent, sort_keys=True)[:300]))
     ctx.count("close_early_sessions")
-    missing = [r for r in sent if r not in seen]
+    # a flag written `false` or `null` is an unset flag: the same request (resolver mode re-encodes
+    # what it forwards)
+    def nf(r):
+        return {k: v for k, v in r.items() if not (k in ("more", "oneway", "upgrade") and not v)}
+    seen_n = [nf(r) for r in seen]
+    missing = [r for r in sent if nf(r) not in seen_n]
     if rc is None:
         ctx.violation("c18:%s:bridge-does-not-exit" % mode, dict(desc, message="still running 20 s after the client closed"))
     elif missing and mode == "bridge":
